@@ -137,10 +137,6 @@ def explain_case(c, text, err):
     lines = text.splitlines()
     bad = lines[int(m.group(1)) - 1] if m and 0 < int(m.group(1)) <= len(lines) else ""
     if c["origin"].startswith("mutant"):       # shapes that only token-level mutants produce
-        if re.search(r"^\s*case ", bad) or "name capture" in err or "patterns unreachable" in err:
-            return "KF-C02-6"
-        if re.search(r"^\s*except .* as \W", bad):
-            return "KF-C02-7"
         if re.search(r"^\s*(\+|-|~|not )\s*(match|if|for|while|try|class|def)\b", bad):
             return "KF-C02-8"
         if "expected an indented block" in err:
